@@ -90,7 +90,8 @@ def run_spec(arg):
         E.base.append(z3.simplify(z3.Or(doms)))
 
     def run():
-        return bb.loads(text)
+        p = bb.loads(text)
+        return g["post"](p) if g.get("post") else p       # a later use of the returned object (copy, ...) before it is inspected
 
     if g.get("order"):
         from ..pysym import order
@@ -208,6 +209,8 @@ def concrete_check(mod, spec, vals, w=None):
             with warnings.catch_warnings():
                 warnings.simplefilter("ignore")
                 ip = bb.loads(text)
+                if g.get("post"):
+                    ip = g["post"](ip)
     except Exception as e:  # noqa
         exc = e
     finally:
